@@ -253,6 +253,23 @@ def oracle_layer(ctx, lk, conn, entries, options):
                 if got_e != want_e:
                     ctx.record_violation('statement-prepares-differently', '%s vs SELECT: %d / %d entries' % (stmt, len(got_e), len(want_e)),
                                          payload={'query': stmt})
+            # ... and PRINT really prints them (executed, not only compiled): the transactions written are the prepared ones
+            from beancount.parser import parser as bparser
+            from beanquery import query_execute
+            out = io.StringIO()
+            try:
+                query_execute.execute_print(compiler.compile(conn, parser.parse('PRINT FROM ' + frm)), out)
+                printed, _, _ = bparser.parse_string(out.getvalue())
+            except Exception as exc:  # noqa: BLE001
+                ctx.record_violation('print-raises-%s' % type(exc).__name__, 'PRINT FROM %s: %r' % (frm, exc))
+                printed = None
+            if printed is not None:
+                def tkey(es):
+                    return [(e.date, e.flag, e.narration, len(e.postings)) for e in es if isinstance(e, data.Transaction)]
+                ctx.count('oracle:print-executed')
+                if tkey(printed) != tkey(prepared(conn, 'SELECT account FROM ' + frm)):
+                    ctx.record_violation('print-ignores-clauses', 'PRINT FROM %s prints %d transactions, %d are prepared' % (
+                        frm, len(tkey(printed)), len(tkey(prepared(conn, 'SELECT account FROM ' + frm)))), payload={'query': 'PRINT FROM ' + frm})
         if ctx.stop():
             return
     # CLOSE before OPEN
